@@ -35,17 +35,19 @@ def _run_one(item):
             out["unrecoverable"] = str(e)
         out["opt_str"] = [str(c) for c in opt.circuit]
         gaussian = not any(o["name"] in GAUSS_ONLY_BACKEND for o in item["circ"])
+        sim = "bosonic" if any(o["name"] == "MSgate" for o in item["circ"]) else "gaussian"
+        out["sim"] = sim
         if gaussian:
             full = sfx.build_program(n, item["prefix"] + item["circ"])
             d0 = absproj.digest(full)
             runs = {}
             for label, p in (("optimize", lambda: full.optimize()),
-                             ("compile_optimize", lambda: full.compile(compiler="gaussian", optimize=True)),
+                             ("compile_optimize", lambda: full.compile(compiler=sim, optimize=True)),
                              ("plain", lambda: full)):
                 try:
                     pr = p()
-                    st = sf.Engine("gaussian").run(pr).state
-                    runs[label] = sfx.project_state(st, "gaussian")
+                    st = sf.Engine(sim).run(pr).state
+                    runs[label] = sfx.project_state(st, sim)
                 except Exception as e:  # noqa
                     runs[label] = {"error": type(e).__name__, "msg": str(e)[:200]}
             if absproj.digest(full) != d0:
@@ -77,7 +79,7 @@ def c03(chk):
                        "parameters of the optimised circuit are recovered exactly as rationals (denominator <= 1e6, verified 1e-9)"]
     chk.tlc("MC_Opt", constants={"NMod": 1, "Len0": 0, "AlphaId": "h", "EMIT": False},
             invariants=["MergeAlgebraSound", "SomeCancel", "SomeMerge"])
-    plans = [(1, 2, "h"), (2, 2, "g")] if tier == "quick" else [(1, 2, "h"), (2, 2, "h"), (1, 3, "h"), (2, 3, "g")]
+    plans = [(1, 2, "h"), (2, 2, "g"), (1, 2, "m")] if tier == "quick" else [(1, 2, "h"), (2, 2, "h"), (1, 3, "h"), (2, 3, "g"), (1, 3, "m"), (2, 2, "m")]
     common.warm(fock=False)
     for (n, L, alpha) in plans:
         r = chk.tlc("MC_Opt", constants={"NMod": n, "Len0": L, "AlphaId": alpha, "EMIT": True},
@@ -98,7 +100,7 @@ def c03(chk):
                 chk.violation(p[0], feats(it), dict(det, info=p[1], optimized=o.get("opt_str")))
             if "runs" in o:
                 plain = o["runs"].get("plain", {})
-                plain_ok = "error" not in plain and sc.compare_state(it["st"], plain, "gaussian")[0] == "ok"
+                plain_ok = "error" not in plain and sc.compare_state(it["st"], plain, o.get("sim", "gaussian"))[0] == "ok"
                 for label in ("optimize", "compile_optimize"):
                     rr = o["runs"][label]
                     if "error" in rr:
@@ -108,7 +110,7 @@ def c03(chk):
                         continue
                     if not plain_ok:
                         continue        # the unoptimised program itself disagrees with the spec: a C01/C02 matter
-                    v, worst, info = sc.compare_state(it["st"], rr, "gaussian")
+                    v, worst, info = sc.compare_state(it["st"], rr, o.get("sim", "gaussian"))
                     if v == "bad":
                         chk.violation("OptimizedStateDiffers", feats(it, {"via": label}),
                                       dict(det, info=info, optimized=o.get("opt_str")))
